@@ -29,6 +29,8 @@ type C13Case struct {
 	All    bool       `json:"all_blocks,omitempty"`     // every other format has an override block with other values
 	// BaseUnset: the base settings leave the leaves unset, only the override block sets them
 	BaseUnset bool `json:"base_unset,omitempty"`
+	// Null: the override block of Key is written without any setting ("deb:" followed by nothing - YAML null)
+	Null bool `json:"null_block,omitempty"`
 }
 
 func overridableShape() []cfgLeaf {
@@ -167,8 +169,11 @@ func init() {
 				if !yield(C13Case{Part: "validate", Key: k}) {
 					return
 				}
-				// the same with an override block that sets nothing
+				// the same with an override block that sets nothing ({} and a bare key)
 				if !yield(C13Case{Part: "validate", Key: k, Empty: true}) {
+					return
+				}
+				if !yield(C13Case{Part: "validate", Key: k, Null: true}) {
 					return
 				}
 			}
@@ -207,6 +212,12 @@ func init() {
 			// the base settings leave the leaf unset; two override blocks for the same leaf; a block for every format
 			for _, l := range leaves {
 				for _, k := range Formats {
+					if !yield(C13Case{Part: "leaf", Key: k, Leaves: [][]string{l.Path}, Kinds: []string{l.Kind}, First: k, Null: true}) {
+						return
+					}
+					if !yield(C13Case{Part: "blocks", Key: k, Leaves: [][]string{l.Path}, Kinds: []string{l.Kind}, First: k, All: true, Null: true}) {
+						return
+					}
 					if !yield(C13Case{Part: "leaf", Key: k, Leaves: [][]string{l.Path}, Kinds: []string{l.Kind}, First: k, BaseUnset: true}) {
 						return
 					}
@@ -261,6 +272,16 @@ func init() {
 		},
 		Check: checkC13,
 	})
+}
+
+// safeGet is Config.Get with a panic turned into an error.
+func safeGet(cfg *nfpm.Config, f string) (info *nfpm.Info, err error) {
+	defer func() {
+		if r := recover(); r != nil {
+			err = fmt.Errorf("PANIC in Config.Get(%s): %v", f, r)
+		}
+	}()
+	return cfg.Get(f)
 }
 
 // normInfoFor renders the effective settings for format f. Entries addressed to other packagers are left out on
@@ -405,6 +426,10 @@ func checkC13(env *engine.Env, ci any) engine.Outcome {
 			}
 			overrides[f] = over
 		}
+		if c.Null {
+			overrides[c.Key] = nil
+			blocks[c.Key] = "empty"
+		}
 		withOver := deepCopyMap(doc)
 		withOver["overrides"] = overrides
 		text := fixture.Doc(withOver).YAML()
@@ -441,9 +466,9 @@ func checkC13(env *engine.Env, ci any) engine.Outcome {
 		var keyParts []string
 		for i, f := range order {
 			out.Transitions++
-			info, err := cfg.Get(f)
+			info, err := safeGet(&cfg, f)
 			if err != nil {
-				viol("merge:get-error:"+f, "Get(%s) failed: %v", f, err)
+				viol("merge:get-error:"+f, "Get(%s) failed: %v\nconfig:\n%s", f, err, text)
 				continue
 			}
 			want, err := expect(f)
@@ -477,12 +502,15 @@ func checkC13(env *engine.Env, ci any) engine.Outcome {
 			}
 			keyParts = append(keyParts, f+"="+fmt.Sprint(hashString(got)))
 		}
-		out.Key = fmt.Sprintf("%s:%s:%v:%v:%v:%v:%s:%s:%s", c.Key, c.Key2, c.All, c.BaseUnset, c.Leaves, c.Empty, c.First, c.Second, strings.Join(keyParts, ","))
+		out.Key = fmt.Sprintf("%s:%s:%v:%v:%v:%v:%v:%s:%s:%s", c.Key, c.Key2, c.All, c.BaseUnset, c.Null, c.Leaves, c.Empty, c.First, c.Second, strings.Join(keyParts, ","))
 	case "validate":
 		doc := deepCopyMap(base)
 		doc["overrides"] = map[string]any{c.Key: map[string]any{"depends": []any{"x"}}}
 		if c.Empty {
 			doc["overrides"] = map[string]any{c.Key: map[string]any{}}
+		}
+		if c.Null {
+			doc["overrides"] = map[string]any{c.Key: nil}
 		}
 		if c.Key2 != "" {
 			doc["overrides"].(map[string]any)[c.Key2] = map[string]any{"depends": []any{"y"}}
@@ -493,19 +521,27 @@ func checkC13(env *engine.Env, ci any) engine.Outcome {
 			}
 		}
 		text := fixture.Doc(doc).YAML()
-		cfg, err := parseYAML(text, nil)
-		if err != nil {
-			out.Key = "validate:" + c.Key + ":parse-error"
-			return out
-		}
-		verr := cfg.Validate()
 		registered := false
 		for _, f := range Formats {
 			if f == c.Key {
 				registered = true
 			}
 		}
-		out.Key = fmt.Sprintf("validate:%s:%s:%v:%v:%v", c.Key, c.Key2, c.All, c.Empty, verr != nil)
+		cfg, err := parseYAML(text, nil)
+		if err != nil {
+			out.Key = "validate:" + c.Key + ":parse-error"
+			if registered || strings.HasPrefix(err.Error(), "PANIC") {
+				viol("merge:parse-error:override-block:"+c.Key, "a document with an override block for %q (null block: %v, empty block: %v) is not parsed: %v\n%s", c.Key, c.Null, c.Empty, err, text)
+			}
+			return out
+		}
+		verr := cfg.Validate()
+		if registered {
+			if _, gerr := safeGet(&cfg, c.Key); gerr != nil {
+				viol("merge:get-error:"+c.Key, "Get(%s) failed: %v\n%s", c.Key, gerr, text)
+			}
+		}
+		out.Key = fmt.Sprintf("validate:%s:%s:%v:%v:%v:%v", c.Key, c.Key2, c.All, c.Empty, c.Null, verr != nil)
 		if registered && verr != nil {
 			viol("merge:validate-rejects-registered:"+c.Key, "Validate rejects an override block for the registered format %q: %v", c.Key, verr)
 		}
